@@ -228,3 +228,24 @@ def find_calls(fn, name):
         for c in calls_in(root, name):
             out.append((n, c))
     return out
+
+
+_REL = {ast.Lt: "<", ast.LtE: "<=", ast.Gt: ">", ast.GtE: ">=", ast.Eq: "==", ast.NotEq: "!="}
+_REL_FLIP = {"<": ">", "<=": ">=", ">": "<", ">=": "<=", "==": "==", "!=": "!="}
+
+
+def rel(t, a, b):
+    """Orientation-independent reading of a single comparison: the relation symbol of `A ? B` when one operand satisfies
+    `a` and the other `b` (each a text or a predicate on the operand node), else None.  `b > a` reads as ('<')."""
+    if not (isinstance(t, ast.Compare) and len(t.ops) == 1 and type(t.ops[0]) in _REL):
+        return None
+
+    def sat(p, e):
+        return p(e) if callable(p) else ast.unparse(e) == p
+    l, r = t.left, t.comparators[0]
+    op = _REL[type(t.ops[0])]
+    if sat(a, l) and sat(b, r):
+        return op
+    if sat(a, r) and sat(b, l):
+        return _REL_FLIP[op]
+    return None
